@@ -7,7 +7,7 @@ from vlib.qtyops import num_value, frs
 PID = 'C15'
 PROPERTY_FILE = 'Properties/C15.v'
 # generated model parts (translate/) this property's model / proofs really depend on
-GEN_DEPS = ['StateInventory']
+GEN_DEPS = ['StateInventory', 'EffectsImpl']
 MODEL_TARGETS = R.MODEL_TARGETS
 PROOF_TARGETS = ['Proofs/C15Proofs.vo', 'Proofs/C02Dim.vo']
 COQ_HEADER = R.COQ_HEADER
@@ -89,6 +89,31 @@ def gen_cases(rng, tier):
                           'q': {'k': 'mk', 'n': ['int', '3/1'], 'u': u, 'via': via}})
         cases.append({'dm': 'MHEVEN', 'pre': False, 'script': script, 'hist': [],
                       'q': _dirq(w, script)})
+    # a unit given by a term that mentions one type through two DIFFERENT units
+    # (mi/(h*s), kW*h/d): its scale is the product of the units' scales (seeded C01-h)
+    for i in range(16 if tier == 'quick' else 160):
+        tag = ''.join(rng.choice('abcdefghk') for _ in range(3))
+        e = rng.choice([-2, 2, -3])
+        sg = 1 if e > 0 else -1
+        fa, fb1, fb2 = rng.sample(['1609344/1000', '3600/1', '60/1', '1000/1', '1/1000', '86400/1'], 3)
+        script = [
+            {'d': 'cls', 'name': f"A{tag}", 'def': None, 'ref': f"{tag}a", 'quantum': None},
+            {'d': 'unit', 'cls': f"A{tag}", 'sym': f"{tag}a1", 'def': ['qty', ['frac', fa], f"{tag}a"]},
+            {'d': 'cls', 'name': f"B{tag}", 'def': None, 'ref': f"{tag}b", 'quantum': None},
+            {'d': 'unit', 'cls': f"B{tag}", 'sym': f"{tag}b1", 'def': ['qty', ['frac', fb1], f"{tag}b"]},
+            {'d': 'unit', 'cls': f"B{tag}", 'sym': f"{tag}b2", 'def': ['qty', ['frac', fb2], f"{tag}b"]},
+            {'d': 'cls', 'name': f"D{tag}", 'def': [[f"A{tag}", 1], [f"B{tag}", e]], 'ref': None,
+             'quantum': None},
+        ]
+        items = [[['u', f"{tag}a1"], 1], [['u', f"{tag}b1"], e - sg], [['u', rng.choice([f"{tag}b2", f"{tag}b"])], sg]]
+        if rng.random() < 0.5:
+            items.insert(0, [['n', ['frac', rng.choice(['1/2', '10/1', '3/1'])]], 1])
+        script.append({'d': 'unit', 'cls': f"D{tag}", 'sym': f"{tag}t", 'def': ['term', items]})
+        w = RW.RefWorld()
+        if any(w.apply(d) is not None for d in script):
+            continue
+        cases.append({'dm': 'MHEVEN', 'pre': False, 'script': script, 'hist': [],
+                      'q': {'k': 'scales', 'syms': list(w.order)}})
     # symbols made of blanks only are symbols like any other (not the empty symbol): the unit
     # is found under exactly that symbol, '' stays unknown (seeded C15-f: symbol.strip())
     for i in range(12 if tier == 'quick' else 120):
